@@ -192,7 +192,7 @@ Lemma lookup_pseudo_issued s n nm e : wf s -> fs_idx n = 0 -> lookup_pseudo s n 
 Proof.
   intros W Hz. unfold lookup_pseudo. destruct (ps_lookup (v_ps s) (ino_of n) nm) as [ino| |]; try discriminate.
   cbn [bind]. destruct (aget ino (v_mps s)) as [mnt|] eqn:Em; intros H.
-  - destruct (convert_entry_shape _ _ _ _ _ H) as (E1 & E2 & _ & _). unfold entry_inodes. rewrite E2, E1.
+  - inversion H; subst e. destruct (wf_mp s W _ _ Em) as (_ & _ & E1 & E2 & _). unfold entry_inodes. rewrite E2, E1.
     pose proof (root_of_mount s ino mnt W Em) as P. constructor; [exact P|constructor; [exact P|constructor]].
   - rewrite Hz in H. destruct (convert_entry_shape _ _ _ _ _ H) as (E1 & E2 & Hle & _). unfold entry_inodes. rewrite E2, E1.
     assert (P : pseudo_or_root s (if ino =? 0 then 0 else mk_vino 0 ino)).
@@ -226,10 +226,11 @@ Proof.
       + constructor; [exact P|constructor].
     - rewrite Hz in Hc. destruct (convert_inode 0 ino) as [di| |] eqn:Ei; try discriminate. cbn [bind] in Hc.
       pose proof (pseudo_number s ino di Ei) as P.
-      inversion Hc; subst y. simpl. destruct plus; simpl.
-      + unfold entry_inodes. cbn [e_ino e_stino].
+      destruct plus.
+      + destruct (to_ext (effective_mapping s 0) 0); [|discriminate]. inversion Hc; subst y. simpl.
+        unfold entry_inodes. cbn [e_ino e_stino].
         constructor; [exact P|constructor; [exact P|constructor; [exact P|constructor]]].
-      + constructor; [exact P|constructor]. }
+      + inversion Hc; subst y. simpl. constructor; [exact P|constructor]. }
   clear Ef H. induction F as [|y t Hy _ IH]; [constructor|].
   cbn [flat_map]. apply Forall_app. split; [exact Hy|exact IH].
 Qed.
@@ -246,7 +247,8 @@ Proof.
   - destruct (forget_one s c ino1) as [p1 e1]. destruct p1; [discriminate|].
     destruct (forget_one s c ino2) as [p2 e2]. destruct p2; [discriminate|]. inversion H. constructor.
   - grr W ino; [discriminate| |discriminate].
-    destruct (ps_getattr (v_ps s) (ino_of ino)); try discriminate. cbn [bind] in H. inversion H. constructor.
+    destruct (ps_getattr (v_ps s) (ino_of ino)); try discriminate. cbn [bind] in H.
+    destruct (convert_attr s ino (fs_idx ino) (pseudo_attr a0)); try discriminate. cbn [bind] in H. inversion H. constructor.
   - grr W ino; [| |discriminate].
     + destruct (to_int (effective_mapping s idx) uid); [|discriminate].
       destruct (to_int (effective_mapping s idx) gid); discriminate.
